@@ -44,6 +44,8 @@ EMBEDDED = {
         "_RNG = np.random.RandomState(7)\n"
         "def shared_draw(n):\n    return _RNG.permutation(n)\n"
         "def local_draw(n):\n    rng = np.random.RandomState(7)\n    return rng.permutation(n)\n"
+        "class Box:\n    _limits = {'lower': 0}\n    def clip(self, hi=None):\n        limits = self._limits\n        if hi:\n            limits['upper'] = hi\n        return limits\n"
+        "    def clip_ok(self, hi=None):\n        limits = {'lower': 0}\n        if hi:\n            limits['upper'] = hi\n        return limits\n"
     )
 }
 
@@ -370,7 +372,19 @@ def d4_hidden_state(chk, prog, eff):
         for arg, d in list(zip(pos, defaults)) + list(zip(a.kwonlyargs, a.kw_defaults)):
             if d is not None and isinstance(d, (ast.List, ast.Dict, ast.Set)) and arg.arg in eff.sum[fi.qn].mut:
                 chk.violate("no-hidden-state", f"{fi.qn}::default {arg.arg}", fi.loc(d), f"mutable default `{arg.arg}={norm(d)}` is mutated: results depend on call history")
+    shared_state(chk, prog)
     chk.ok("no-hidden-state", f"{n_fn} functions scanned", cells=n_fn)
+
+
+def shared_state(chk, prog, modules=("cnvlib", "skgenome")):
+    """class attributes / module-level names bound to a dict, list or set and written inside a function, directly or through a local alias
+    (shared with C06 / C12 for the interval operations: resize_ranges(bp) after resize_ranges(bp, chrom_sizes) must not see the earlier call's sizes)"""
+    hits = [(fi, n, d) for fi, n, d in rules.shared_mutable_state(prog, modules) if "__all__" not in d and not fi.mod.startswith("cnvlib.commands")]
+    for fi, n, d in hits:
+        chk.violate("no-hidden-state", f"{fi.qn}::{norm(n)[:60]}", fi.loc(n), f"{d}: the container outlives the call, so what {fi.name} returns depends on the calls made before it in the same process "
+                    "(build the container inside the function instead)")
+    if not hits:
+        chk.ok("no-hidden-state", f"no function in {' / '.join(modules)} writes into a class-level or module-level dict / list / set (directly or through a local alias)")
 
 
 def d5_ensure_path(chk, prog):
@@ -475,7 +489,10 @@ def embedded_positive(chk):
     sg = rules.shared_generators(p)
     if [f.name for f, _, _ in sg] != ["shared_draw"]:
         raise AnalysisError(f"embedded positive example: shared-generator rule found {[f.name for f, _, _ in sg]}, expected ['shared_draw']")
-    chk.ok("self-check", "embedded positive examples: alias mutation, unseeded draw, as_completed all fire", cells=4)
+    sm = sorted({f.name for f, _, _ in rules.shared_mutable_state(p)})
+    if sm != ["clip", "do_state"]:
+        raise AnalysisError(f"embedded positive example: shared-mutable-state rule found {sm}, expected ['clip', 'do_state']")
+    chk.ok("self-check", "embedded positive examples: alias mutation, unseeded draw, as_completed, shared generator, class-level container written through an alias all fire", cells=5)
 
 
 def run(chk):
